@@ -543,6 +543,48 @@ class SimManagerList(object):
     def __iter__(self):
         return iter(list(self._items))
 
+    # the rest of what multiprocessing.managers.ListProxy exposes (each call is a round trip too)
+    def __getitem__(self, i):
+        self._y()
+        r = self._items[i]
+        return list(r) if isinstance(i, slice) else r
+
+    def __setitem__(self, i, v):
+        self._y(True)
+        self._items[i] = v
+
+    def __delitem__(self, i):
+        self._y(True)
+        del self._items[i]
+
+    def pop(self, *a):
+        self._y(True)
+        return self._items.pop(*a)
+
+    def extend(self, it):
+        self._y(True)
+        self._items.extend(it)
+
+    def insert(self, i, v):
+        self._y(True)
+        self._items.insert(i, v)
+
+    def index(self, *a):
+        self._y()
+        return self._items.index(*a)
+
+    def count(self, v):
+        self._y()
+        return self._items.count(v)
+
+    def reverse(self):
+        self._y(True)
+        self._items.reverse()
+
+    def sort(self, *a, **kw):
+        self._y(True)
+        self._items.sort(*a, **kw)
+
 
 class YieldList(list):
     """A plain list whose membership test / append / remove are yield points: list operations are
